@@ -20,6 +20,7 @@ OUTSIDE = SIM_OUTSIDE + ['PING texts longer than the stated bound', 'scripts lon
 NOT_CONSTRAINED = ['PING data that is a JSON literal with insignificant whitespace, a JSON string literal or null (the client decodes the '
                    'payload as JSON and the PONG carries the decoded value)']
 ASSUMPTIONS = ['cooperative scheduling only; virtual integer time']
+OUTSIDE = OUTSIDE + ['send bursts above the stated bound (quick 40, thorough 63 back-to-back send() calls)']
 
 
 class _NeverJson:
@@ -263,7 +264,7 @@ def _upgrade_conduct(cfl, ri, early_send, bundled_ping, ws_refused):
         k.teardown()
 
 
-def _burst(cfl, mode, n, with_ping):
+def _burst(cfl, mode, n, with_ping, inflight=False):
     """n send() calls issued back to back (nothing yields in between), mixed text / JSON / binary, optionally with a PING
     from the server arriving in the middle of it: the server receives exactly those payloads once and in order."""
     import json
@@ -277,7 +278,20 @@ def _burst(cfl, mode, n, with_ping):
         if h.exc is not None or cl.state() != 'connected':
             return fail(PROP, 'SETUP', 'connect failed: %r' % (h.exc,), **st)
         sends = [('t%d' % i, {'n': i}, bytes([i, 255]))[i % 3] for i in range(n)]
-        for i, d in enumerate(sends):
+        if inflight and mode == 0 and n > 0:
+            # polling: the first send's POST is still in flight (the server has not answered it) while the rest is queued
+            fs.post_mode = 'hold'
+            cl.call('send', sends[0])
+            k.settle()
+            for d in sends[1:]:
+                cl.call('send', d)
+                k.settle()
+            fs.hold = False
+            fs.post_mode = 'ok'
+            sends_iter = []
+        else:
+            sends_iter = list(enumerate(sends))
+        for i, d in sends_iter:
             cl.call('send', d)
             if with_ping and i == n // 2:
                 fs.push('2mid')
@@ -301,12 +315,12 @@ def _burst(cfl, mode, n, with_ping):
 
 
 @cond(quick=dict(N=40, timeout=170, parts=dict(C=[0, 1])), thorough=dict(N=63, timeout=600, parts=dict(C=[0, 1])))
-def send_burst(cfl: int, mode: int, n: int, with_ping: bool) -> str:
+def send_burst(cfl: int, mode: int, n: int, with_ping: bool, inflight: bool) -> str:
     """
-    pre: cfl == P.C and 0 <= mode <= 2 and 0 <= n <= P.N
+    pre: cfl == P.C and 0 <= mode <= 2 and 0 <= n <= P.N and (not inflight or (mode == 0 and not with_ping))
     post: _ == ''
     """
-    return verdict(untraced(_burst, cfl, mode, n, with_ping))
+    return verdict(untraced(_burst, cfl, mode, n, with_ping, inflight))
 
 
 @cond(quick=dict(timeout=120), thorough=dict(timeout=300))
